@@ -118,6 +118,13 @@ Definition ty_dom (t : aty) : bool :=
 Definition cmd_dom (c : cmd) : bool :=
   snake_name (c_name c) && has_letter (c_name c) &&
   forallb (fun p => snake_name (p_name p) && ty_dom (p_ty p)) (c_params c).
+(* a project of the quantifier: every function (command or helper) is well formed and top-level names are
+   unique within a file (Rust rejects duplicates); names may repeat across files and overlap freely *)
+Fixpoint nodup_str (l : list str) : bool :=
+  match l with [] => true | x :: r => negb (existsb (str_eqb x) r) && nodup_str r end.
+Definition file_dom (f : file) : bool :=
+  nodup_str (map (fun g => c_name (f_cmd g)) f) && forallb (fun g => cmd_dom (f_cmd g)) f.
+Definition project_dom (p : project) : bool := forallb file_dom p.
 Definition cfg_dom (cf : cfg) : bool := match rule_of_str (default_case cf) with Some _ => true | None => false end.
 
 (* ---- classes of recorded defects (narrow; premises of the main theorems, and the run-time matcher) ---- *)
